@@ -58,7 +58,11 @@ def _psi(rng, maxangle=np.pi):
 
 def _rotation(rng):
     """rotation matrices built in hostile ways; returns (A, class)"""
-    c = int(rng.integers(9))
+    c = int(rng.integers(10))
+    if c == 9:  # quaternion components of graded magnitude (1, 10^-a, 10^-b, 10^-c in a random order, random signs): one clearly
+        #         dominant component, the others small to tiny - the pivot choice decides whether a tiny one is divided by
+        q = np.array([1.0] + [10.0 ** (-rng.uniform(0.0, 9.0)) for _ in range(3)]) * rng.choice([-1.0, 1.0], size=4)
+        return quat_to_mat(q[rng.permutation(4)]), "graded_quaternion"
     if c == 8:  # signed permutation matrix with determinant +1, given as an INTEGER array (quarter / half / third turns about
         #         the coordinate axes and diagonals - exact rotation matrices a user would write down by hand)
         while True:
